@@ -602,12 +602,31 @@ func (h *gtHist) delegate(i, j int, amt sdkmath.Int) {
 	h.e.Stat("op.delegate." + class(err, p))
 }
 
+// delegation shares of `del` at validator j (zero when there is none)
+func (h *gtHist) sharesOf(del sdk.AccAddress, j int) sdkmath.LegacyDec {
+	d, err := h.c.App.StakingKeeper.Delegations.Get(h.c.Ctx(), collections.Join(del, h.c.Vals[j].Oper))
+	if err != nil {
+		return sdkmath.LegacyZeroDec()
+	}
+	return d.Shares
+}
+
 func (h *gtHist) nonVoting(i, j int, amt sdkmath.Int) {
 	c := h.c
+	own0, mod0 := h.sharesOf(c.Accs[i].Addr, j), h.sharesOf(h.sc, j)
 	_, err, p := c.Exec(&sctypes.MsgNonVotingDelegate{Sender: c.Accs[i].Addr.String(), ValidatorAddress: c.Vals[j].Oper.String(), Amount: sdk.NewCoin("urise", amt)})
 	h.e.Note("nonVotingDelegate a%d -> v%d %s: %s %v", i, j, amt, class(err, p), err)
 	h.e.Stat("op.nonVotingDelegate." + class(err, p))
 	h.e.Oracle("no_panic", p == nil, "Msg/NonVotingDelegate")
+	if err == nil && p == nil {
+		// non-voting stake is stake of the share-class account, whoever delegates (also a validator operator to its own
+		// validator): the sender's own (voting) delegation must not grow
+		own1, mod1 := h.sharesOf(c.Accs[i].Addr, j), h.sharesOf(h.sc, j)
+		if i == j {
+			h.e.Stat("op.nonVotingDelegate.operator_to_own_validator")
+		}
+		h.e.Oracle("nonvoting_held_by_share_class", own1.Equal(own0) && mod1.GT(mod0), "a%d -> v%d %s: sender's own shares %s -> %s, share-class shares %s -> %s", i, j, amt, own0, own1, mod0, mod1)
+	}
 }
 
 func (h *gtHist) undelegate(i, j int, all bool) {
@@ -751,6 +770,10 @@ func gtHistory(e *Env, n int) {
 		}
 	default:
 		k := 2 + e.R.N(8)
+		if e.R.N(2) == 0 { // a validator operator puts non-voting stake on its own validator
+			j := e.R.N(nv)
+			h.nonVoting(j, j, h.amount())
+		}
 		for x := 0; x < k; x++ {
 			i, j := e.R.N(len(c.Accs)), e.R.N(nv)
 			switch e.R.N(7) {
